@@ -57,8 +57,7 @@ structure State where
   cfg : Cfg
   offset : Nat                              -- resultOffset
   head : Nat                                -- headerHead (0 = zero hash)
-  b : Pools
-  r : Pools
+  pools : Kind → Pools                      -- block* and receipt* containers
   cache : Cache
   lacking : List (Nat × List Header)        -- per peer connection
   -- ghost history
@@ -66,10 +65,9 @@ structure State where
   sched : List Header
   ret : List Result
   failed : Bool
-deriving Repr, Inhabited
 
 def init (cacheLen maxProc : Nat) (fast : Bool) (offset : Nat) : State :=
-  { cfg := ⟨cacheLen, maxProc, fast⟩, offset := offset, head := 0, b := {}, r := {}, cache := [], lacking := [],
+  { cfg := ⟨cacheLen, maxProc, fast⟩, offset := offset, head := 0, pools := fun _ => {}, cache := [], lacking := [],
     origin := offset, sched := [], ret := [], failed := false }
 
 /-! ### finite maps as association lists -/
@@ -88,9 +86,10 @@ def pget : List (Nat × List Header) → Nat → Option (List Header)
   | [], _ => none
   | (k, v) :: t, p => if k = p then some v else pget t p
 
+/-- `delete(pendPool, id)`; Go map keys are unique, so removing the first match is the whole delete -/
 def perase : List (Nat × List Header) → Nat → List (Nat × List Header)
   | [], _ => []
-  | (k, v) :: t, p => if k = p then perase t p else (k, v) :: perase t p
+  | (k, v) :: t, p => if k = p then t else (k, v) :: perase t p
 
 /-- all headers currently in flight -/
 def pendAll : List (Nat × List Header) → List Header
@@ -112,14 +111,11 @@ def pushAll (hs : List Header) (q : List Header) : List Header := hs.foldl (fun 
 
 /-! ### accessors by kind -/
 
-def State.pools (s : State) : Kind → Pools
-  | .body => s.b
-  | .rcpt => s.r
-
 def State.setPools (s : State) (k : Kind) (p : Pools) : State :=
-  match k with
-  | .body => { s with b := p }
-  | .rcpt => { s with r := p }
+  { s with pools := fun k' => if k' = k then p else s.pools k' }
+
+abbrev State.b (s : State) : Pools := s.pools .body
+abbrev State.r (s : State) : Pools := s.pools .rcpt
 
 def root (k : Kind) (h : Header) : Nat :=
   match k with
@@ -153,28 +149,28 @@ def resultSlots (s : State) (k : Kind) (limit : Nat) : Int :=
 
 /-! ### Schedule -/
 
-structure SAcc where
-  from_ : Nat
-  head : Nat
-  b : Pools
-  r : Pools
-  ins : List Header
+/-- one accepted header: queued for body retrieval (and receipt retrieval in fast/light mode) -/
+def schedOne (s : State) (h : Header) : State :=
+  { s with head := h.hash,
+           pools := fun k =>
+             if k = .body ∨ s.cfg.fast = true then
+               { s.pools k with pool := h :: (s.pools k).pool, queue := insertSorted h (s.pools k).queue }
+             else s.pools k,
+           sched := s.sched ++ [h] }
 
-def scheduleLoop (fast : Bool) : List Header → SAcc → SAcc
-  | [], a => a
-  | h :: hs, a =>
-    if h.numNil || h.num != a.from_ then a
-    else if a.head != 0 && a.head != h.parent then a
-    else if h ∈ a.b.pool then scheduleLoop fast hs a
-    else if h ∈ a.r.pool then scheduleLoop fast hs a
+/-- the loop of Schedule; returns the new state and `len(inserts)` -/
+def scheduleLoop : List Header → Nat → State → State × Nat
+  | [], _, s => (s, 0)
+  | h :: hs, from_, s =>
+    if h.numNil = true ∨ h.num ≠ from_ then (s, 0)
+    else if s.head ≠ 0 ∧ s.head ≠ h.parent then (s, 0)
+    else if h ∈ (s.pools .body).pool then scheduleLoop hs from_ s
+    else if h ∈ (s.pools .rcpt).pool then scheduleLoop hs from_ s
     else
-      let b := { a.b with pool := h :: a.b.pool, queue := insertSorted h a.b.queue }
-      let r := if fast then { a.r with pool := h :: a.r.pool, queue := insertSorted h a.r.queue } else a.r
-      scheduleLoop fast hs { from_ := a.from_ + 1, head := h.hash, b := b, r := r, ins := a.ins ++ [h] }
+      let (s', n) := scheduleLoop hs (from_ + 1) (schedOne s h)
+      (s', n + 1)
 
-def schedule (s : State) (hs : List Header) (from_ : Nat) : State × Nat :=
-  let a := scheduleLoop s.cfg.fast hs { from_ := from_, head := s.head, b := s.b, r := s.r, ins := [] }
-  ({ s with head := a.head, b := a.b, r := a.r, sched := s.sched ++ a.ins }, a.ins.length)
+def schedule (s : State) (hs : List Header) (from_ : Nat) : State × Nat := scheduleLoop hs from_ s
 
 /-! ### reserveHeaders -/
 
@@ -195,10 +191,12 @@ def allocSlot (cfg : Cfg) (c : Cache) (h : Header) : Cache :=
   | none => cset c h.num { pending := comps cfg, header := h, txs := none, rcs := none }
   | some _ => c
 
-def decPending (c : Cache) (n : Nat) : Cache :=
-  match cget c n with
+/-- one component of block `h` is complete: `Pending--`, and (deliver only) the content is stored -/
+def complete (c : Cache) (k : Kind) (h : Header) (b : Option Nat) : Cache :=
+  match cget c h.num with
   | none => c
-  | some r => cset c n { r with pending := r.pending - 1 }
+  | some r =>
+    cset c h.num { (match b with | some b => setContent k r b | none => r) with pending := r.pending - 1 }
 
 /-- the pop loop of reserveHeaders; returns the remaining queue and the accumulator -/
 def reserveLoop (cfg : Cfg) (k : Kind) (offset count : Nat) (lack : List Header) :
@@ -212,7 +210,7 @@ def reserveLoop (cfg : Cfg) (k : Kind) (offset count : Nat) (lack : List Header)
         let c1 := allocSlot cfg a.cache h
         if isNoop k h then
           reserveLoop cfg k offset count lack q
-            { a with space := a.space - 1, cache := decPending c1 h.num, done := insertSet h a.done,
+            { a with space := a.space - 1, cache := complete c1 k h none, done := insertSet h a.done,
                      pool := removeAll h a.pool, progress := true }
         else if h ∈ lack then
           reserveLoop cfg k offset count lack q { a with proc := a.proc + 1, cache := c1, skip := a.skip ++ [h] }
@@ -270,14 +268,12 @@ def deliverLoop (cfg : Cfg) (k : Kind) (offset : Nat) : List Header → List Nat
   | h :: hs, b :: bs, a =>
     if h.num < offset ∨ offset + cfg.cacheLen ≤ h.num then (h :: hs, a, .invalidChain)
     else
-      match cget a.cache h.num with
-      | none => (h :: hs, a, .invalidChain)
-      | some r =>
-        if b ≠ root k h then (h :: hs, a, .badData)
-        else
-          deliverLoop cfg k offset hs bs
-            { cache := cset a.cache h.num { setContent k r b with pending := r.pending - 1 },
-              pool := removeAll h a.pool, done := insertSet h a.done, accepted := a.accepted + 1 }
+      if (cget a.cache h.num).isNone then (h :: hs, a, .invalidChain)
+      else if b ≠ root k h then (h :: hs, a, .badData)
+      else
+        deliverLoop cfg k offset hs bs
+          { cache := complete a.cache k h (some b),
+            pool := removeAll h a.pool, done := insertSet h a.done, accepted := a.accepted + 1 }
 
 def markLacking (l : List (Nat × List Header)) (peer : Nat) (hs : List Header) : List (Nat × List Header) :=
   (peer, hs.foldl (fun acc h => insertSet h acc) (lget l peer)) :: perase l peer
@@ -324,7 +320,7 @@ def expire (s : State) (k : Kind) (overdue : List Nat) : State × List (Nat × N
   (s.setPools k p, out)
 
 def revoke (s : State) (peer : Nat) : State :=
-  { s with b := (cancelPools s.b peer).1, r := (cancelPools s.r peer).1 }
+  { s with pools := fun k => (cancelPools (s.pools k) peer).1 }
 
 /-! ### Results -/
 
@@ -353,8 +349,7 @@ def ceraseRange (c : Cache) (lo n : Nat) : Cache := c.filter (fun e => e.1 < lo 
 def results (s : State) : State × List Result :=
   let n := min (countProc s.cache s.offset s.cfg.cacheLen 0) s.cfg.maxProc
   let rs := takeResults s.cache s.offset n
-  ({ s with b := { s.b with done := removeHeaders rs s.b.done },
-            r := { s.r with done := removeHeaders rs s.r.done },
+  ({ s with pools := fun k => { s.pools k with done := removeHeaders rs (s.pools k).done },
             cache := ceraseRange s.cache s.offset n,
             offset := s.offset + n, ret := s.ret ++ rs }, rs)
 
